@@ -49,7 +49,7 @@ def scenario_sources(prop, args):
                                       [configs.NOQ, M("SRQ", "a8a", "w8c")] if big else [configs.NOQ], share="none"),
         # concatenations with several constant operands (each takes the output's parameters and its own data)
         "concat3_1op": configs.cfg(1, ["CONCAT3"], [configs.NOQ], [M("SRQ", "a8a", "w8c"), M("SRQ", "a16", "w8c")], [configs.NOQ, M("SRQ", "a8a", "w8c")], share="none"),
-        "weights_1op": configs.cfg(1, ["FC", "TCONV", "BMM", "EMB"], configs.MODES_W_RICH + [M("DRQ", "-", "w4c"), M("WO", "-", "w4c"), M("WO", "-", "w4ta"), M("SRQ", "a8a", "w4c")],
+        "weights_1op": configs.cfg(1, ["FC", "TCONV", "BMM", "BMMC", "EMB"], configs.MODES_W_RICH + [M("DRQ", "-", "w4c"), M("WO", "-", "w4c"), M("WO", "-", "w4ta"), M("SRQ", "a8a", "w4c")],
                                    [configs.NOQ], configs.IO_RICH, share="none"),
     }
   for name, c in fams.items():
